@@ -4,8 +4,8 @@ package sym
 
 import (
 	"fmt"
-	"os"
 	"go/types"
+	"os"
 	"sort"
 	"strings"
 	"time"
@@ -85,36 +85,37 @@ type Machine struct {
 	ex     *Explorer
 
 	// per path
-	globals   map[*ssa.Global]*value
-	initDone  map[*ssa.Package]bool
-	pc        []*Term
-	pcSet     map[*Term]bool
-	prefix    []int64
-	pos       int
-	decisions []int64
-	steps     int64
-	nondet    []NondetVar
-	nondetT   map[string]*Term
-	facts     map[string]string
-	reached   []string
-	obls      []*Obligation
-	harness   string
-	forbid    map[string]string
-	callCount map[string]int
-	observes  []observe
-	trace     []string
-	ufRows    map[string][]*ufRow
-	makeCap   int
-	truncEnd  map[*value]bool
-	mapOrder  bool
-	fresh     int
-	depth     int
-	models    map[string]interface{} // per-path state of Go-side intrinsics
-	fnInfos   map[*ssa.Function]*fnInfo
-	unknownBr int
-	foldMark  int
-	thr       *threads
-	curFrame  *frame
+	globals     map[*ssa.Global]*value
+	initDone    map[*ssa.Package]bool
+	pc          []*Term
+	pcSet       map[*Term]bool
+	prefix      []int64
+	pos         int
+	decisions   []int64
+	steps       int64
+	nondet      []NondetVar
+	nondetT     map[string]*Term
+	facts       map[string]string
+	reached     []string
+	obls        []*Obligation
+	harness     string
+	forbid      map[string]string
+	callCount   map[string]int
+	observes    []observe
+	trace       []string
+	ufRows      map[string][]*ufRow
+	makeCap     int
+	truncEnd    map[*value]bool
+	mapOrder    bool
+	fresh       int
+	depth       int
+	models      map[string]interface{} // per-path state of Go-side intrinsics
+	fnInfos     map[*ssa.Function]*fnInfo
+	unknownBr   int
+	foldMark    int
+	oneShotKind string
+	thr         *threads
+	curFrame    *frame
 }
 
 type observe struct {
@@ -179,6 +180,7 @@ func (m *Machine) resetPath(prefix []int64) {
 	m.models = map[string]interface{}{}
 	m.unknownBr = 0
 	m.foldMark = m.tt.SymFolds
+	m.oneShotKind = ""
 	m.thr = nil
 	m.curFrame = nil
 }
@@ -201,6 +203,28 @@ func (m *Machine) check(extra ...*Term) Verdict {
 	lits := make([]*Term, 0, len(m.pc)+len(extra))
 	lits = append(lits, m.pc...)
 	lits = append(lits, extra...)
+	if m.oneShotKind != "" {
+		// harness-selected one-shot back end (e.g. cvc5 int-blasting for div/rem kernels)
+		t0 := time.Now()
+		v, msg, _ := OneShot(m.oneShotKind, m.lim.QueryTimeout, lits)
+		m.solver.Stats.Queries++
+		m.solver.Stats.Time += time.Since(t0)
+		switch v {
+		case Sat:
+			m.solver.Stats.Sat++
+		case Unsat:
+			m.solver.Stats.Unsat++
+		default:
+			m.solver.Stats.Unknown++
+			if m.ex != nil {
+				m.ex.noteUnknown(m.oneShotKind + ": " + msg)
+			}
+		}
+		if v != Sat {
+			return v
+		}
+		// a model is needed by callers after Sat: fall through to the incremental solver
+	}
 	v, msg := m.solver.Check(lits)
 	if v == Unknown && m.ex != nil {
 		m.ex.noteUnknown(msg)
